@@ -24,9 +24,11 @@ LEVEL = "exploration"
 RULE = ("skeletons {straight, if taken / not taken, loop x2, branch to end, if-in-loop, measure-then-if, mov with alloc/free} x "
         "first block over all gate groups [set Q0 a; (set Q1 b;) g] for g in {h,x,t,rot_y(3,2),cnot,cphase} and all placements over "
         "ids {0,1,2}, second block over a reduced set x qubit register written by set or by load from an array x debug in "
-        "{False,True} x 3 initial states (basis, product probe, entangled probe) x all measurement scripts; distinct = distinct "
+        "{False,True}; two two-qubit gates on all pairs of register pairs over Q0..Q2 (straight, loop, if-in-loop) and with a third "
+        "register written between the gates and used after them; x 3 initial states (basis, product probe, entangled probe) x all measurement scripts; distinct = distinct "
         "(skeleton, blocks, register source, debug); non-trivial = contains a branch or a two-qubit gate")
-ASSUMPTIONS = ["programs of the kind the SDK emits: every gate is preceded by the set/load of its qubit registers",
+ASSUMPTIONS = ["programs of the kind the SDK emits: every gate is preceded by the set/load of its qubit registers (the "
+               "live-third-register family relaxes 'immediately preceded' to 'preceded in the same straight-line block')",
                "NV semantics of the reference VM as in C07; vanilla mov is a state transfer onto a fresh target (followed by qfree of the source)",
                "a debug=True subroutine is judged in its serialised form (DebugInstructions serialise to nothing and the base executor refuses them in memory)"]
 
@@ -166,8 +168,10 @@ def static_checks(prog, wire, case, part, fam) -> bool:
         start.append(p)
         if mn in GATE_MN:
             if p < len(wire) and wire[p][0] == "set" and (p + 1 < len(wire) and wire[p + 1][0] in GATE_MN) and \
-                    not (i + 1 < len(prog) and prog[i + 1] == wire[p]):
-                p += 1          # the transpiler's own `set <electron register> 0`
+                    (mn in ("cnot", "cphase") or not (i + 1 < len(prog) and prog[i + 1] == wire[p])):
+                # the transpiler's own `set <scratch register> 0` (an expansion never is empty, so a `set` at the place of a
+                # two-qubit gate is the transpiler's even when the program's next instruction happens to be the same `set`)
+                p += 1
             q = p
             while q < len(wire) and wire[q][0] in ("rot_x", "rot_y", "rot_z", "crot_x", "crot_y"):
                 q += 1
@@ -368,8 +372,40 @@ def shard_corpus(sh):
     return part
 
 
+def shard_regs(sh):
+    """Two two-qubit gates in one subroutine whose operands live in *different* qubit registers (Q0..Q2), optionally with a
+    third register that is written between the gates and used after the second one: the transpiler's own scratch register for a
+    borrowed electron must never be a register the program still relies on, whatever it picked for an earlier gate."""
+    _, a, b, c, d, tier = sh
+    part = new_part()
+    ids1 = [(1, 2), (2, 1), (0, 1), (1, 0)] if tier != "quick" else [(1, 2), (0, 1)]
+    ids2 = [(1, 2), (2, 3), (3, 1), (0, 2)] if tier != "quick" else [(2, 3), (0, 2)]
+    gates = [(x, y) for x in TWOS for y in TWOS] if tier != "quick" else [("cnot", "cphase"), ("cphase", "cnot")]
+    e = [r for r in (0, 1, 2) if r not in (c, d)][0]
+    alloc = (0, 1, 2, 3)
+    inits = ("product", "entangled")
+    for (i1, i2), (i3, i4), (g1, g2) in itertools.product(ids1, ids2, gates):
+        b1 = [("set", [Q(a), i1]), ("set", [Q(b), i2]), (g1, [Q(a), Q(b)])]
+        b2 = [("set", [Q(c), i3]), ("set", [Q(d), i4]), (g2, [Q(c), Q(d)])]
+        sk = skeletons(b1, b2)
+        for name in ("straight", "loop2", "if-in-loop"):
+            check_program(f"regs-{name}", sk[name], "set", part, alloc=alloc, inits=inits)
+            count(part, "skeleton/other-registers")
+        for i5 in (3, 0):
+            if i5 in (i3, i4):
+                continue
+            # (a classical instruction separates the two gates: the static segmentation delimits expansions by non-gates)
+            prog = b1 + [("set", [Q(e), i5])] + b2 + [("add", [R(3), R(3), R(5)]), ("h", [Q(e)])]
+            check_program("regs-live-third-register", prog, "set", part, alloc=alloc, inits=inits)
+            count(part, "skeleton/live-third-register")
+    if (a, b, c, d) == (0, 1, 1, 2):
+        add_sample(part, {"skeleton": "regs-straight", "program": skeletons(
+            [("set", [Q(0), 1]), ("set", [Q(1), 2]), ("cnot", [Q(0), Q(1)])], [("set", [Q(1), 2]), ("set", [Q(2), 3]), ("cphase", [Q(1), Q(2)])])["straight"]})
+    return part
+
+
 def _dispatch(sh):
-    return {"s": shard, "mov": shard_mov, "corpus": shard_corpus}[sh[0]](sh)
+    return {"s": shard, "mov": shard_mov, "corpus": shard_corpus, "regs": shard_regs}[sh[0]](sh)
 
 
 def run(ctx):
@@ -377,7 +413,11 @@ def run(ctx):
     for src in ("set", "load"):
         for idx in range(len(groups(src, False))):
             shards.append(("s", src, idx, ctx.tier))
+    for (a, b), (c, d) in itertools.product(itertools.permutations((0, 1, 2), 2), repeat=2):
+        shards.append(("regs", a, b, c, d, ctx.tier))
     ctx.pmap(_dispatch, shards)
+    ctx.require("skeleton/other-registers", 36 * 8 * 3)
+    ctx.require("skeleton/live-third-register", 36 * 8)
     for sk in ("straight", "if-skipped", "if-taken", "loop2", "loop2-exit-at-end", "branch-to-end", "if-in-loop", "measure-then-if", "mov"):
         ctx.require(f"skeleton/{sk}", 1)
     for g in ("h", "x", "t", "rot_y", "cnot", "cphase"):
@@ -393,6 +433,9 @@ def replay(case, part):
         return o
     prog = [(mn, [fix(o) for o in ops]) for mn, ops in case["program"]]
     alloc = (0, 1, 2)
+    if case["skeleton"].startswith("regs-"):
+        check_program(case["skeleton"], prog, case["register_source"], part, alloc=(0, 1, 2, 3), inits=("product", "entangled"))
+        return
     if case["skeleton"].startswith("mov"):
         for a in ((0, 1), (0, 2), (1, 2)):
             p = new_part()
